@@ -89,6 +89,7 @@ class Model:
 # OpenAeroStruct function other than the mesh generator that produced them has seen them. A digest taken
 # only after the model is built would miss an in-place edit made *during* set-up.
 _EARLY = None
+_SURF_OPTS = {}  # per-build overrides of surface-dict options (spec["surf_opts"]): option combinations of the swarm
 
 
 def _early(label, arr):
@@ -153,6 +154,7 @@ def _aero_surface(name, mesh, symmetry, twist_cp=None, viscous=True, wave=False,
     if twist_cp is not None:
         s["twist_cp"] = np.array(twist_cp, dtype=float)
     s.update(kw)
+    s.update(_SURF_OPTS)
     if SHARE is not None and SHARE.get("level") == "surface":
         # only tenants built from the identical configuration may share a surface dict: a builder for
         # another configuration would write other properties into it after the first tenant's setup
@@ -1318,16 +1320,28 @@ def z0(spec):
 
 
 def build(spec):
-    global _EARLY
+    global _EARLY, _SURF_OPTS
     if spec["zoo"] not in ZOO:
         raise HarnessError("unknown zoo entry %r" % (spec["zoo"],))
     _EARLY = []
+    _SURF_OPTS = dict(spec.get("surf_opts") or {})
     try:
         model = ZOO[spec["zoo"]](dict(spec))
         model.early = _EARLY
     finally:
         _EARLY = None
+        _SURF_OPTS = {}
     return model
+
+
+SURF_OPT_CHOICES = [
+    {"S_ref_type": "projected"},
+    {"with_viscous": False},
+    {"k_lam": 0.2},
+    {"c_max_t": 0.4},
+    {"CL0": 0.1, "CD0": 0.02},
+    {"S_ref_type": "projected", "k_lam": 0.15},
+]
 
 
 def variants():
